@@ -248,7 +248,7 @@ RandIntData(dmax) ==
         G(e) == IF e > dmax THEN << >>
                 ELSE (IF R(0, 1) = 1 THEN << Ent(e, I(RandomElement({-3, -2, -1, 1, 2, 3}))) >> ELSE << >>) \o G(e + 1)
     IN G(0)
-RandSeeds == { [part |-> pt, ph |-> "seed"] : pt \in {"pow", "euclid", "fft", "poly", "polymap", "quot", "gcdmany"} }
+RandSeeds == { [part |-> pt, ph |-> "seed"] : pt \in {"pow", "euclid", "euclidbig", "fft", "poly", "polymap", "quot", "gcdmany"} }
 \* every random draw is bound by a quantifier over a singleton, so it is drawn exactly once
 RandNext(s) ==
     CASE s.part = "pow" ->
@@ -262,6 +262,9 @@ RandNext(s) ==
                       n |-> (IF mon = "word" THEN R(-1, 60) ELSE R(-2, 1000)), ac |-> ""]
       [] s.part = "euclid" ->
             st' = [part |-> "euclid", ph |-> "case", q |-> R(-3000, 3000), r |-> R(-3000, 3000), eps |-> EntrySeq, ac |-> ""]
+      [] s.part = "euclidbig" ->
+            st' = [part |-> "euclidbig", ph |-> "case", k |-> R(30, 1200), a |-> R(-1000, 1000),
+                   sm |-> RandomElement((-3000..3000) \ {0}), sw |-> R(0, 1), ps |-> BigPrimes, eps |-> EntrySeq, ac |-> ""]
       [] s.part = "gcdmany" ->
             \E g \in { R(1, 30) } :
             st' = [part |-> "gcdmany", ph |-> "case",
